@@ -176,7 +176,7 @@ def merge_case(draw, tier):
     if kf == "index":
         key = draw(st.integers(0, len(tables[0][0]) - 1))
     any_ragged = any(len(r) != len(t[0]) for t in tables for r in t[1:])
-    missing = None if any_ragged else draw(st.sampled_from([None, "M"]))
+    missing = draw(st.sampled_from([None, "M"]))
     header = None
     if draw(st.integers(0, 3)) == 0 and key is not None and kf != "index":
         allf = []
@@ -190,7 +190,9 @@ def merge_case(draw, tier):
         header = [f for f in header if f in ("k", "j") or f not in drop]
     n = max(len(t) - 1 for t in tables)
     return {"tables": tables, "key": key, "reverse": draw(st.booleans()), "missing": missing,
-            "header": header, "presorted": draw(st.booleans()), "buffersize": draw(gen.buffersizes(n)),
+            # (presorted inputs are sorted by the harness on the raw key cells; with a non-None `missing` a short row's key
+            #  becomes `missing` only after padding, so ragged tables are then left to mergesort's own sorting)
+            "header": header, "presorted": draw(st.booleans()) and not (any_ragged and missing is not None), "buffersize": draw(gen.buffersizes(n)),
             "passes": draw(st.integers(1, 2)),
             # inputs that are themselves sort views on the same key, in the same or the opposite direction
             "upstream": [draw(st.sampled_from(["none", "none", "none", "same", "opposite"])) for _ in tables]}
